@@ -641,10 +641,17 @@ func genC16(r *rand.Rand, tier string) []Case {
 			k = i
 		}
 		c := &c16PQ{Mag: i%2 == 1}
+		wide := i%10 == 7 // many inputs that are all alive at the same time
+		if wide {
+			k = 8 + r.Intn(9)
+		}
 		for j := 0; j < k; j++ {
 			n := r.Intn(7)
 			if r.Intn(4) == 0 {
 				n = 0
+			}
+			if wide {
+				n = 3 + r.Intn(10)
 			}
 			if tier == "thorough" && r.Intn(20) == 0 {
 				n = r.Intn(200)
